@@ -48,6 +48,7 @@ LEVEL["decided"] += " (R14.8) callbacks keep the keyword arguments they were reg
 LEVEL["decided"] += " (R14.10) awaitify's wrapper cannot intercept and retry a failing exit (C06's census on _core, shared); force_async is applied by awaitify itself or to a synchronous protocol method only."
 LEVEL["technique"] += "; re-close history on the model with the stack's own fields"
 LEVEL["decided"] += ' (R14.11) what push() registers for each kind of argument (async exit, sync context manager, both - the asynchronous protocol wins -, plain callable, neither); (R14.12) an exit registered by an exit during the unwind runs in that unwind, once, and nothing is left in the stack; (R14.13) callback() takes the stack and the callback positional-only.'
+LEVEL["decided"] += ' R14.9 also: aclose() hands every exit (None, None, None); R14.5 accepts a fourth form of the registered runner, an object of a private class with a coroutine __call__, under the same obligations.'
 
 STACK_ATTR = "_exit_callbacks"  # re-derived from ExitStack.__init__ on every run (_derive_stack_attr)
 
@@ -66,7 +67,7 @@ def _context_helpers(ctx) -> tuple:
         stores = [x for x in own_nodes(u.node) if isinstance(x, ast.Attribute) and isinstance(x.ctx, ast.Store)]
         rets = [x for x in own_nodes(u.node) if isinstance(x, ast.Return) and x.value is not None]
         if stores and all(x.attr == "__context__" for x in stores) and not rets \
-                and not any(isinstance(x, (ast.Await, ast.Yield)) for x in own_nodes(u.node)):
+                and not any(isinstance(x, (ast.Await, ast.Yield, ast.Raise)) for x in own_nodes(u.node)):
             names.add(u.node.name)
     ctx.__dict__["_context_helpers"] = tuple(sorted(names))
     return ctx.__dict__["_context_helpers"]
